@@ -28,7 +28,8 @@ def driver(S, max_is_none):
              interpolation_error_arrayL2=Seq("list", []), interpolation_error_arrayMax=Seq("list", []),
              operation=Obj("Integration", {}), refinement=Obj("MetaRefinementContainer", dict(evaluationstotal=S.int("evaluationstotal"))),
              scheme=Opaque(S.const("scheme", P.U)), lmax=Opaque(S.const("lmax", P.U)), calculated_solution=None,
-             ghost_E=S.int("E0"), ghost_R=S.int("R0"))
+             ghost_E=S.int("E0"), ghost_R=S.int("R0"),
+             tolerance=S.real("tolerance_of_the_previous_call"))     # whatever an earlier call stored: the limits of THIS call are its arguments
     return Obj("SpatiallyAdaptivBase", f)
 
 
@@ -132,7 +133,8 @@ class ContinueAdaptiveRefinement(Contract):
         from pyvc import modelparse as mp
         g = lambda k, d: mp.tofloat(mp.num(model.get(k, str(d))))  # noqa
         return {"kind": "C13.driver", "tol": g("tol", 0.5), "min_evaluations": g("min_evaluations", 3),
-                "max_evaluations": g("max_evaluations", 5) if self.with_max else None}
+                "max_evaluations": g("max_evaluations", 5) if self.with_max else None,
+                "tolerance_prev": g("tolerance_of_the_previous_call", 1.5) if "tolerance_of_the_previous_call" in model else None}
 
     def pre(self, S, env):
         f = env["self"].fields
